@@ -162,3 +162,126 @@ def http_occurs(sx, p):
             same = sx.And(len(got) == n, *[sx.eq(a, sx.digits_value(b)) for a, b in zip(got, vals)])
         return sx.And(ok, same)
     return sx.And(not ok, is_client_validation_fault(out.fault))
+
+
+class Group(ComplexModel):
+    __namespace__ = 'tns'
+    name = Unicode
+    items = Array(Inner)
+
+
+class Outer3(ComplexModel):
+    __namespace__ = 'tns'
+    groups = Array(Group)
+
+
+@harness('C03', params=['default', 'soft', 'hier_delim=_'],
+         functions=['spyne.protocol.dictdoc.simple.SimpleDictDocument.simple_dict_to_object',
+                    'spyne.protocol.dictdoc.simple._s2cmi'],
+         bounds={'doc': 'two keys groups[i].items[j].v with four symbolic one-digit indexes ((i0,j0) != (i1,j1)), '
+                        'symbolic one-digit values'})
+def nested_index(sx, cfg):
+    """with nested arrays every index addresses its own level: same outer index -> one group with two
+    items ordered by the inner index; different outer indexes -> two groups ordered by the outer index"""
+    prot = PROTS[cfg]
+    d = '_' if cfg == 'hier_delim=_' else '.'
+    i0, j0, i1, j1 = [sx.digits(n, 1) for n in ('i0', 'j0', 'i1', 'j1')]
+    I0, J0, I1, J1 = [sx.digits_value(t) for t in (i0, j0, i1, j1)]
+    v0, v1 = sx.digits('v0', 1), sx.digits('v1', 1)
+    V0, V1 = sx.digits_value(v0), sx.digits_value(v1)
+    sx.assume(sx.Not(sx.And(I0 == I1, J0 == J1)))
+    key = lambda i, j: 'groups[' + i + ']' + d + 'items[' + j + ']' + d + 'v'
+    doc = sx.mkdict([(key(i0, j0), [v0]), (key(i1, j1), [v1])])
+    out = prot.simple_dict_to_object(CTX, doc, Outer3, prot.validator)
+    gs = out.groups
+    if gs is None:
+        return False
+    if len(gs) == 1:
+        its = gs[0].items
+        if its is None or len(its) != 2:
+            return False
+        first0 = J0 < J1
+        return sx.And(I0 == I1,
+                      sx.Implies(first0, sx.And(sx.eq(its[0].v, V0), sx.eq(its[1].v, V1))),
+                      sx.Implies(sx.Not(first0), sx.And(sx.eq(its[0].v, V1), sx.eq(its[1].v, V0))))
+    if len(gs) != 2 or any(g.items is None or len(g.items) != 1 for g in gs):
+        return False
+    first0 = I0 < I1
+    a, b = gs[0].items[0].v, gs[1].items[0].v
+    return sx.And(sx.Not(I0 == I1),
+                  sx.Implies(first0, sx.And(sx.eq(a, V0), sx.eq(b, V1))),
+                  sx.Implies(sx.Not(first0), sx.And(sx.eq(a, V1), sx.eq(b, V0))))
+
+
+def _eater(prot, v, t):
+    return [prot.to_unicode(t, v)]
+
+
+class Flat(ComplexModel):
+    __namespace__ = 'tns'
+    a = Integer
+    s = Unicode
+    inner = Inner
+    b = Array(Inner)
+    nums = Array(Integer)
+
+
+@harness('C03', params=[(nb, nn, cfg) for nb in (0, 1, 2) for nn in (0, 2) for cfg in ('default', 'hier_delim=_')],
+         label=lambda p: 'b=%d nums=%d %s' % p,
+         functions=['spyne.protocol.dictdoc.simple.SimpleDictDocument.object_to_simple_dict',
+                    'spyne.protocol.dictdoc.simple.SimpleDictDocument.simple_dict_to_object',
+                    'spyne.protocol._outbase.OutProtocolBase.to_unicode'],
+         bounds={'object': 'scalar int (|v| <= 9999) and 2-char string, nested object, array of <= 2 objects, '
+                           'array of <= 2 ints; all leaves symbolic (array leaves 0..9 in quick, -9..99 in thorough)'})
+def flat_roundtrip(sx, p):
+    """simple_dict_to_object(object_to_simple_dict(o)) == o"""
+    nb, nn, cfg = p
+    prot = PROTS[cfg]
+    a = sx.int('a', -9999, 9999)
+    s = sx.text('s', 2, alphabet='ab[].')
+    lo, hi = (0, 9) if sx.tier == 'quick' else (-9, 99)
+    iv = sx.int('iv', lo, hi)
+    bv = [sx.int('b%d' % i, lo, hi) for i in range(nb)]
+    bw = [sx.text('w%d' % i, 1, alphabet='xy') for i in range(nb)]
+    nums = [sx.int('n%d' % i, lo, hi) for i in range(nn)]
+    o = Flat(a=a, s=s, inner=Inner(v=iv), b=[Inner(v=bv[i], w=bw[i]) for i in range(nb)] if nb else None,
+             nums=nums if nn else None)
+    flat = prot.object_to_simple_dict(Flat, o, subinst_eater=_eater)
+    doc = {}
+    for k, v in flat.items():
+        if isinstance(v, list) and v and isinstance(v[0], list):
+            v = [x[0] for x in v]
+        doc[k] = v
+    back = prot.simple_dict_to_object(CTX, doc, Flat, prot.validator)
+    ok = [sx.eq(back.a, a), sx.eq(back.s, s), back.inner is not None and sx.eq(back.inner.v, iv)]
+    if nb:
+        if back.b is None or len(back.b) != nb:
+            return False
+        for i in range(nb):
+            ok += [sx.eq(back.b[i].v, bv[i]), sx.eq(back.b[i].w, bw[i])]
+    else:
+        ok.append(back.b is None or back.b == [])
+    if nn:
+        if back.nums is None or len(back.nums) != nn:
+            return False
+        ok += [sx.eq(x, y) for x, y in zip(back.nums, nums)]
+    else:
+        ok.append(back.nums is None or back.nums == [])
+    return sx.And(*ok)
+
+
+@harness('C03', functions=['spyne.protocol._outbase.OutProtocolBase.to_bytes_iterable',
+                           'spyne.protocol._outbase.OutProtocolBase.simple_model_to_bytes_iterable'],
+         bounds={'value': 'every int |v| < 10^12; every 0..3 character ASCII string'})
+def primitive_return_bytes(sx, p):
+    """a single primitive return value is sent as exactly its text"""
+    prot = PROTS['default']
+    v = sx.int('v', -10 ** 12, 10 ** 12)
+    chunks = list(prot.to_bytes_iterable(Integer, v))
+    n = sx.choose('slen', [0, 1, 3])
+    s = sx.text('s', n) if n else u''
+    schunks = list(prot.to_bytes_iterable(Unicode, s))
+    want = sx.render(v)
+    want_b = want.encode('utf8')
+    return sx.And(len(chunks) == 1, sx.eq(chunks[0], want_b),
+                  len(schunks) == 1, sx.eq(schunks[0], s.encode('utf8')))
